@@ -33,19 +33,39 @@ META = dict(
          "mutations of an object leaves the view of every object with separate list and dict cell unchanged, although "
          "occurrence lists are shared and rewritten in place), copy_frame and copyModule_frame (copy() and the "
          "copy-module/pickle protocol: the copy shows the original's view; mutating either side never changes the other) "
-         "— full strength on the model for all heaps/objects/mutation sequences. PARTIAL: deepcopy()/copy.deepcopy/"
-         "pickle of nested groups are not proved (only the one-level deepcopy1 witness "
-         "deepcopy_named_group_aliased_witness = registered finding deepcopy_named_group_aliased: deepcopy() leaves "
-         "named nested values shared with the original); that clause is decided by the mutate-then-compare oracle on "
-         "the real class only. from_dict: tree model of from_dict/as_dict (PPModel/Mod/PRFromDict.lean), "
+         "— full strength on the model for all heaps/objects/mutation sequences. NESTED groups at every depth "
+         "(PPProofs/Props/C11Deep.lean, models deepcopyN and deepObjN/copyModuleDeep in PPModel/Mod/PRHeapDeep.lean), for "
+         "all heaps, objects, depths and mutation sequences, under the hypothesis that the (token / token+name) structure "
+         "of the object is allocated and of finite depth: ParseResults.deepcopy(): deepcopy_tokens_fresh (every group "
+         "reachable through the copy's token lists is a new object with new list and dict cell, not in the original's "
+         "token tree — deepcopy_tokens_fresh_full: not reachable from the original by any route —, and as_list() of "
+         "the copy = as_list() of the original to every depth), deepcopy_frame_tokens / deepcopy_frame_tokens_many (own "
+         "mutations of any groups of the copy's token tree never change the original's as_list(), and vice versa), "
+         "deepcopy_names_shared + deepcopy_named_alias_any_depth (registered finding deepcopy_named_group_aliased, "
+         "general form: at every depth the copy of a group keeps the very occurrence lists of the original, so every "
+         "named nested value of the copy IS the original's object; a concrete heap for every depth). copy.deepcopy / "
+         "pickle of nested results (memoised graph copy through __getnewargs__/__getstate__/__setstate__): "
+         "copyModule_deep_fresh (every object reachable from the copy by any route, names included, is new with new "
+         "list cell, dict cell and occurrence lists; nothing of the original heap is written) and "
+         "copyModule_deep_frame (own mutations on either side never change the other side's view). PARTIAL: that the "
+         "copy.deepcopy/pickle copy SHOWS the original's views at every depth is not proved on the heap model (one "
+         "object: pickle_roundtrip; nested: copy-preserves oracle); deepcopy()'s name view of nested groups is proved "
+         "only in the form `same occurrence lists` (deepcopy_names_shared); container tokens (list/tuple/dict holding "
+         "groups, results.py:598-605) are not in the heap model: oracle only. "
+         "from_dict: tree model of from_dict/as_dict (PPModel/Mod/PRFromDict.lean), "
          "from_dict_roundtrip proved for ALL dicts whose nested dicts are non-empty, at every depth (full strength on "
          "the tree model; its one assumption about `+=` in the loop is proved on the full model as from_dict_item_step; tied to the class by a "
          "per-run structural correspondence); from_dict_empty_inner_dict shows why `non-empty` is needed.",
     note="Trusted: Lean kernel; axioms propext/Classical.choice/Quot.sound; the value model of results.py (C10) and the "
          "transcription of copy()/__getstate__/__setstate__/__add__/__radd__; the heap model (PRHeap.lean) is tied to the "
-         "class only by a 30-cell sharing table (3 kinds of copy x 10 probes) and by the frame oracle; CPython copy/pickle "
-         "protocol dispatch is assumed, not modelled; nested-group frames of the deep kinds are oracle-checked only (no "
-         "proof); the from_dict tree model is a separate small model (not derived from the PR model in Lean).",
+         "class only by a sharing table (3 kinds of copy x 12 probes), the deep models (PRHeapDeep.lean: deepcopyN, "
+         "deepObjN) by the stream deep-sharing (is-identity and append probes on chains of nested groups, depths 1-6, "
+         "deepcopy()/copy.deepcopy/pickle) and by the frame oracle; the CPython copy/pickle protocol dispatch "
+         "(copy._reconstruct, memo discipline, order args -> __new__ -> memo -> state -> __setstate__) is transcribed by "
+         "hand into deepObjN, not verified; deepcopyN stores the rebuilt token list once after the loop instead of after "
+         "each recursive call (equivalent because the calls only allocate: deepcopyN_ext); fuel-bounded recursion, "
+         "theorems hold for every fuel >= depth; "
+         "the from_dict tree model is a separate small model (not derived from the PR model in Lean).",
     technique="Lean 4 proof on the value model + differential copies/concatenations + mutate-then-compare oracle",
     design="§5 C11",
 )
@@ -83,8 +103,13 @@ THEOREMS = [
     "PP.PRHeap.deepcopy_frame_tokens_many",
     "PP.PRHeap.deepcopy_names_shared",
     "PP.PRHeap.deepcopy_named_alias_any_depth",
+    "PP.PRHeap.deepcopy_tokens_fresh_full",
     "PP.PRHeap.deepcopyN_corr",
     "PP.PRHeap.deepcopyN_ext",
+    # copy.deepcopy / pickle of nested results (memoised model deepObjN / copyModuleDeep)
+    "PP.PRHeap.copyModule_deep_fresh",
+    "PP.PRHeap.copyModule_deep_frame",
+    "PP.PRHeap.deepObjN_spec",
 ]
 
 KINDS = ["copy", "copy.copy", "deepcopy", "copy.deepcopy", "pickle"]
@@ -460,9 +485,10 @@ def sharing_real(pp, kind, probe):
     return snapshot(pp, watch) != snap
 
 
-def deep_share_real(pp, d):
-    """the sharing pattern of r.deepcopy() on d+1 groups nested in each other, the innermost named `g` in its parent
-    (the shape of PRHeapDeep.lean `chainHeap d`), by `is`-identity probes and two append probes; see `deepShare`"""
+def deep_share_real(pp, kind, d):
+    """the sharing pattern of a deep copy (kind: deepcopy / copy.deepcopy / pickle) of d+1 groups nested in each other,
+    the innermost named `g` in its parent (the shape of PRHeapDeep.lean `chainHeap d`), by `is`-identity probes and two
+    append probes; last entry: the copy's as_list() is the original's; see `deepShareOf`"""
     expr = pp.Group(pp.Word("a"))("g")
     for _ in range(d - 1):
         expr = pp.Group(expr)
@@ -474,17 +500,20 @@ def deep_share_real(pp, d):
         return out
 
     r = expr.parse_string("a")
-    po, pc = chain(r), chain(r.deepcopy())
+    c = make_copy(r, kind)
+    po, pc = chain(r), chain(c)
     gv = pc[d - 1]["g"]
     out = [a is b for a, b in zip(po, pc)] + [gv is po[-1], gv is pc[-1]]
+    same_list = _plain(c.as_list()) == _plain(r.as_list())
     r = expr.parse_string("a")
     before = _plain(r.as_list())
-    chain(r.deepcopy())[-1].append("z")
+    chain(make_copy(r, kind))[-1].append("z")
     out.append(_plain(r.as_list()) != before)
     r = expr.parse_string("a")
     before = _plain(r.as_list())
-    chain(r.deepcopy())[d - 1]["g"].append("z")
+    chain(make_copy(r, kind))[d - 1]["g"].append("z")
     out.append(_plain(r.as_list()) != before)
+    out.append(same_list)
     return out
 
 
@@ -597,11 +626,13 @@ def run(ctx):
     slines = [sx(Sym("prshare"), k, p) for k, p in scases]
     simpl = [dumps(bool(sharing_real(pp, k, p))) for k, p in scases]
     d0 = ctx.correspond("sharing-table", scases, slines, simpl, outcome_of=lambda c, o: f"{c[0]}:{o}")
-    # ---- deepcopyN (PRHeapDeep.lean) vs real deepcopy(): sharing pattern of nested groups, depths 1..6 ----------------
-    dcases = list(range(1, 7))
-    d0b = ctx.correspond("deep-sharing", [{"depth": d} for d in dcases], [sx(Sym("prdeepshare"), d) for d in dcases],
-                         [dumps([bool(b) for b in deep_share_real(pp, d)]) for d in dcases],
-                         outcome_of=lambda c, o: f"depth{c['depth']}")
+    # ---- deepcopyN / copyModuleDeep (PRHeapDeep.lean) vs real deepcopy() / copy.deepcopy / pickle: sharing pattern of
+    #      nested groups, depths 1..6
+    dcases = [[k, d] for k in sorted(DEEP) for d in range(1, 7)]
+    d0b = ctx.correspond("deep-sharing", [{"kind": k, "depth": d} for k, d in dcases],
+                         [sx(Sym("prdeepshare"), k, d) for k, d in dcases],
+                         [dumps([bool(b) for b in deep_share_real(pp, k, d)]) for k, d in dcases],
+                         outcome_of=lambda c, o: c["kind"])
     d0 = list(d0) + list(d0b)
     # ---- (a) preserve: every kind of copy has the views of the original; model = views of the extracted state ----
     rng = ctx.subrng("preserve")
@@ -728,8 +759,8 @@ def run(ctx):
                 ctx.fail_input("from_dict(d).as_dict() != d", {"dict": d}, _plain(d), res,
                                theorem="PP.FromDict.from_dict_roundtrip")
                 break
-    ctx.assumptions.append("C11: the frame theorems are about the heap model of copy()/copy.copy; nested-group frames of the "
-                           "deep kinds are decided by the oracle on the real class only; from_dict: tree model + round-trip "
+    ctx.assumptions.append("C11: the frame theorems are about the heap models of copy()/copy.copy/deepcopy()/copy.deepcopy; the "
+                           "deep models are tied to the class by the deep-sharing stream and the frame oracle; from_dict: tree model + round-trip "
                            "theorem + structural correspondence")
 
 
